@@ -82,10 +82,13 @@ def rebin(x, d, sample=False):
         sliceobj1 = [slice(None)]*len(d0)
         sliceobj = [slice(None)]*len(d)
         if d[k] > d0[k]:
-            f = d0[k]/d[k]
             for i in range(d[k]):
-                p = f*i
-                fp = int(floor(p))
+                #
+                # Exact integer arithmetic for the index: (d0/d)*i falls
+                # just below a whole number for some factors (e.g. 49).
+                #
+                p = (i*d0[k])/d[k]
+                fp = (i*d0[k])//d[k]
                 sliceobj0[k] = slice(fp, fp + 1)
                 sliceobj[k] = slice(i, i + 1)
                 if sample:
